@@ -151,7 +151,13 @@ def main(argv=None):
 
     shutil.rmtree(os.path.join(VERIF, "replay", prop), ignore_errors=True)
     REG = load_contracts()
-    specs = [s for s in REG.values() if prop in s.props and (a.only is None or a.only in s.name)]
+    def _serves(sp):
+        # a contract may serve fewer properties in the quick tier (quick_props) so that the per-change checks do not
+        # all repeat the same runs; the thorough tier runs every contract for every property it supports
+        ps = getattr(sp, "quick_props", None) if a.tier == "quick" else None
+        return prop in (ps if ps is not None else sp.props)
+
+    specs = [s for s in REG.values() if _serves(s) and (a.only is None or a.only in s.name)]
     if not specs:
         print(f"checker broken: no contracts registered for {prop}")
         return 3
@@ -159,7 +165,7 @@ def main(argv=None):
     for s in specs:
         for cfg in s.configs(a.tier):
             jobs.append((s.name, cfg, a.tier))
-    with mp.Pool(min(a.jobs, max(1, len(jobs)))) as pool:
+    with mp.Pool(min(a.jobs, max(1, len(jobs))), maxtasksperchild=1) as pool:
         results = pool.map(_job, jobs, chunksize=1)
 
     # ---- aggregate
@@ -235,7 +241,7 @@ def main(argv=None):
     # a known finding suppresses only its recorded witness class: look for failures outside it
     rjobs = [(name, cfg, a.tier, tuple(sorted(excl))) for (name, cfg, excl, obs) in recheck.values() if obs and excl]
     if rjobs:
-        with mp.Pool(min(a.jobs, len(rjobs))) as pool:
+        with mp.Pool(min(a.jobs, len(rjobs)), maxtasksperchild=1) as pool:
             rres = pool.map(_job, rjobs, chunksize=1)
         for (name, cfg, _, excl), r in zip(rjobs, rres):
             want = set(recheck[(name, json.dumps(cfg, sort_keys=True))][3])
